@@ -88,16 +88,50 @@ def hasUndefined (d : String → Bool) : Nat → J → Bool
   | fuel + 1, .arr l => l.any (hasUndefined d fuel)
   | _, _ => false
 
+/-! ### what a proof covers of the `@context` member
+
+A Linked-Data signature covers the STATEMENTS the contexts produce, not the context list as text. With the `proofValue`
+representation the document's context list is also copied into the proof options that are signed, so every change of
+the list is refused. With the detached-JWS representation the proof options carry a fixed security context: a context
+that defines only proof vocabulary (the suites' own contexts) and no term of the claims can be removed without changing
+any signed statement, and the credential still verifies (observed on the real code; default validation only — strict
+validation then finds the proof's own terms undefined). -/
+
+def proofOnlyCtx : List String :=
+  ["https://w3id.org/security/suites/jws-2020/v1", "https://w3id.org/security/suites/ed25519-2020/v1",
+   "https://w3id.org/security/bbs/v1"]
+
+def ctxList (doc : J) : List J :=
+  match member doc "@context" with
+  | some (.arr l) => l
+  | some x => [x]
+  | none => []
+
+def isProofOnly : J → Bool
+  | .str u => proofOnlyCtx.contains u
+  | _ => false
+
+def detachedJws (p : J) : Bool := (member p "jws").isSome && (member p "proofValue").isNone
+
+def ctxSame (p orig mutated : J) : Bool :=
+  if detachedJws p then
+    ((ctxList orig).filter (!isProofOnly ·)).map J.render == ((ctxList mutated).filter (!isProofOnly ·)).map J.render
+  else (member orig "@context").map J.render == (member mutated "@context").map J.render
+
+/-- a proof-vocabulary context of the signed document is missing from the presented one -/
+def lostProofCtx (orig mutated : J) : Bool :=
+  (ctxList orig).any fun c => isProofOnly c && !((ctxList mutated).map J.render).contains (J.render c)
+
 /-- (default validation, strict validation) outcome of verifying `mutated`, a document derived from the signed `orig` -/
 def expected (orig mutated : J) : String × String :=
   match member mutated "proof" with
   | none => ("noproof", "noproof")
   | some p =>
     let sameProof := (member orig "proof").map J.render == some (J.render p)
-    let sameCtx := (member orig "@context").map J.render == (member mutated "@context").map J.render
+    let sameCtx := ctxSame p orig mutated
     let d := definedFor mutated
     let ok := sameProof && sameCtx && sameSet (docClaims d orig) (docClaims d mutated)
     if !ok then ("rej", "rej")
-    else ("acc", if hasUndefined d 16 mutated then "rej" else "acc")
+    else ("acc", if hasUndefined d 16 mutated || lostProofCtx orig mutated then "rej" else "acc")
 
 end Ldp
